@@ -35,11 +35,12 @@ def probes():
 
 class C08(Spec):
     pid = "C08"
-    lean_module = "NunVerif.Props.C08Integrity"
+    lean_module = "NunVerif.Props.C08Confidential"
     theorems = ["Nun.C08_secure_refused_uniform", "Nun.C08_keys_hides_secure", "Nun.C08_token_irremovable_db", "Nun.C08_token_irremovable",
                 "Nun.C08_token_irremovable_replicated", "Nun.C08_conflict_keys_not_secure", "Nun.C08_no_notice_for_secure_keys",
                 "Nun.C08_request_keeps_secure_entries", "Nun.C08_line_keeps_secure_entries", "Nun.C08_history_keeps_secure_entries",
-                "Nun.C08_only_administrators_change_secure_entries", "Nun.exec_namesOk"]
+                "Nun.C08_only_administrators_change_secure_entries", "Nun.exec_namesOk",
+                "Nun.C08_request_confidential", "Nun.C08_line_confidential", "Nun.C08_history_confidential", "Nun.sort_eq_of_same_members", "Nun.registerArbiter_lowEq"]
     rule = ("pairs of servers that differ only in $$ contents (value and existence of $$secret/$$other, another user's token and permission list); "
             "the same non-admin command sequence (length 1-3, every command word of the parser x key arguments {$$token, $$user_x, $$permission_$x, $$secret, $secret, secret} and patterns {*, $$*, *$$}) "
             "from a database-token and a user-token session runs on both, also with an administrator's own (stale-versioned, plain, removing) write to a $$ key in the middle of the session on databases of every strategy, before and after the session registers as arbiter / watches / lists keys; the probing session's replies and channel lines must be byte-identical and every $$ entry unchanged. "
